@@ -20,6 +20,7 @@ import (
 	"archive/zip"
 	"io"
 	"path"
+	"path/filepath"
 
 	"shanhu.io/g/errcode"
 )
@@ -44,6 +45,9 @@ func TarZipFile(tw *tar.Writer, p string, dir string) error {
 	}
 
 	for _, f := range z.File {
+		if !filepath.IsLocal(f.Name) {
+			return errcode.InvalidArgf("zip entry %q is not inside the directory", f.Name)
+		}
 		stat := f.FileInfo()
 		tarStat, err := tar.FileInfoHeader(stat, "")
 		if err != nil {
